@@ -15,6 +15,8 @@ enum Style {
     Alias,
     From,
     FromAs,
+    /// main reaches the item through the other file's namespace: `via.target.name`
+    Chain,
 }
 const STYLES: [Style; 4] = [Style::Ns, Style::Alias, Style::From, Style::FromAs];
 
@@ -59,6 +61,11 @@ fn use_path(from: usize, to: usize, places: &[Place]) -> (String, String) {
         Place::Sub => (if from_in_sub { name.clone() } else { format!("sub/{}", name) }, name),
         Place::Exports => (if from_in_sub { "/sub/".to_string() } else { "sub/".to_string() }, "sub".to_string()),
     }
+}
+
+/// does main refer to an item of file `to` (so that a chain through the other file is needed)?
+fn file_uses_chain(l: &Layout, items: &[&str], to: usize) -> bool {
+    items.iter().enumerate().any(|(i, _)| l.file_of[i] == to)
 }
 
 fn item_source(name: &str, r: &dyn Fn(&str) -> String) -> String {
@@ -133,6 +140,10 @@ fn build(l: &Layout, items: &[&str], mutation: Option<(&str, usize)>) -> Option<
                 return name.to_string();
             }
             match l.styles.get(&(f, t)).copied().unwrap_or(Style::Ns) {
+                Style::Chain => {
+                    let via = (1..nfiles).find(|o| *o != t && *o != f).unwrap();
+                    format!("{}.{}.{}", use_path(f, via, &l.places).1, use_path(via, t, &l.places).1, name)
+                }
                 Style::Ns => format!("{}.{}", use_path(f, t, &l.places).1, name),
                 Style::Alias => format!("al{}.{}", t, name),
                 Style::From => name.to_string(),
@@ -144,6 +155,13 @@ fn build(l: &Layout, items: &[&str], mutation: Option<(&str, usize)>) -> Option<
         for (t, names) in &needed {
             let (path, _) = use_path(f, *t, &l.places);
             match l.styles.get(&(f, *t)).copied().unwrap_or(Style::Ns) {
+                Style::Chain => {
+                    let via = (1..nfiles).find(|o| *o != *t && *o != f).unwrap();
+                    let l1 = format!("use {}", use_path(f, via, &l.places).0);
+                    if !lines.contains(&l1) {
+                        lines.push(l1);
+                    }
+                }
                 Style::Ns => lines.push(format!("use {}", path)),
                 Style::Alias => lines.push(format!("use {} as al{}", path, t)),
                 Style::From => {
@@ -157,6 +175,15 @@ fn build(l: &Layout, items: &[&str], mutation: Option<(&str, usize)>) -> Option<
                     for n in names {
                         lines.push(format!("from {} use {} as {}_{}", path, n, n, t));
                     }
+                }
+            }
+        }
+        // a chain from main through this file needs this file to `use` the target
+        for ((from, to), st) in l.styles.iter() {
+            if *st == Style::Chain && *from == 0 && nfiles == 3 && f != 0 && *to != f && file_uses_chain(l, items, *to) {
+                let line = format!("use {}", use_path(f, *to, &l.places).0);
+                if !lines.contains(&line) {
+                    lines.push(line);
                 }
             }
         }
@@ -180,7 +207,7 @@ fn build(l: &Layout, items: &[&str], mutation: Option<(&str, usize)>) -> Option<
                     // a second, different module under the same name
                     if line.starts_with("use ") && l.places.len() >= 2 {
                         let alias = if line.contains(" as ") { line.rsplit(" as ").next().unwrap().to_string() } else { line.trim_start_matches("use ").trim_matches('/').rsplit('/').next().unwrap().to_string() };
-                        let this_target = needed.keys().nth(li.min(needed.len() - 1)).copied().unwrap_or(0);
+                        let this_target = needed.keys().nth(li.min(needed.len().saturating_sub(1))).copied().unwrap_or(0);
                         let other = (1..nfiles).find(|o| *o != this_target && *o != f);
                         if let Some(o) = other {
                             text.push_str(line);
@@ -269,6 +296,14 @@ pub fn run(run: &mut Run) {
                                     styles.insert((a, b), st);
                                     idx += 1;
                                 }
+                            }
+                        }
+                        if nf == 3 && sv < 2 {
+                            // main reaches file 1 (sv = 0) or file 2 (sv = 1) through the other file
+                            let mut chained = styles.clone();
+                            chained.insert((0, 1 + sv), Style::Chain);
+                            if places.iter().filter(|p| **p == Place::Exports).count() == 0 || true {
+                                cases.push((si, Layout { file_of: file_of.clone(), places: places.clone(), styles: chained, items: n }));
                             }
                         }
                         cases.push((si, Layout { file_of: file_of.clone(), places: places.clone(), styles, items: n }));
